@@ -254,6 +254,12 @@ func GenProgram(t *rapid.T, c GenCfg) Program {
 			}
 			for j, m := 0, rapid.IntRange(1, 3).Draw(t, "niters"); j < m; j++ {
 				p.Ops = append(p.Ops, Op{Kind: "iter", T: slot, It: genIterSpec(t, nk, false)})
+				if rapid.IntRange(0, 1).Draw(t, "rewrite") == 0 {
+					// write again (often to a key that is already pending) between two iterators
+					w := genWrite(t, p.Spec, c, slot, nk)
+					w.Key = base + rapid.IntRange(0, 3).Draw(t, "dk2")
+					p.Ops = append(p.Ops, w, Op{Kind: "iter", T: slot, It: genIterSpec(t, nk, false)})
+				}
 			}
 			if rapid.IntRange(0, 3).Draw(t, "docommit") > 0 {
 				p.Ops = append(p.Ops, Op{Kind: "commit", T: slot, Ts: uint64(rapid.IntRange(1, 60).Draw(t, "cts"))})
